@@ -308,7 +308,7 @@ Section Packer.
     unfold Body.verify_block; cbn [b_header b_txs].
     match goal with |- context [ctx_of_header parent ?h] => assert (Hc : ctx_of_header parent h = ctx)
       by (unfold ctx_of_header; cbn; try rewrite C1; reflexivity); rewrite Hc end.
-    rewrite Hver; cbn [h_gas_used h_receipts_root h_state_root]; rewrite !N.eqb_refl; cbn [negb].
+    rewrite Hver; unfold receipts_root_ok; cbn [b_header h_gas_used h_receipts_root h_state_root]; rewrite !N.eqb_refl; cbn [negb orb].
     destruct (pv_pos pv) eqn:Epos.
     - rewrite (Hsan eq_refl stf); cbn [negb]. rewrite Erw. rewrite N.eqb_refl. reflexivity.
     - inversion Erw; subst st2. rewrite N.eqb_refl. reflexivity.
